@@ -24,29 +24,16 @@ Variable P : bool.
 Definition acc (p : bool) (f : spec) (v : pv) : Prop :=
   apply false f v = Typing.Ok v \/ (p = true /\ apply true f v = Typing.Ok v).
 
-(* the field hands a dict (list) to a Dict (List) spec or to Any *)
-Fixpoint route (dict : bool) (s : spec) {struct s} : bool :=
-  negb (Typing.frozen (Typing.mods_of s)) &&
-  match s with
-  | Typing.SDict _ _ => dict
-  | Typing.SList _ _ _ _ => negb dict
-  | Typing.SAny _ => true
-  | Typing.SUnion cs _ =>
-      (fix go (l : list spec) : bool :=
-         match l with
-         | [] => false
-         | c :: r => if takes (if dict then is_tydict else is_tylist) c then route dict c else go r
-         end) cs
-  | _ => false
-  end.
-
-Definition obj_pv (c : N) : pv := Typing.PObj [2%N; c] 0.
+(* [route], [obj_pv]: Model/SymCoreTyped.v.  A dict / list member carries the spec its field binds; a field that routes it to Any
+   binds nothing, and the member answers for itself with whatever spec it carries *)
+Definition carries (fl : flags) (o : option spec) : Prop :=
+  match o with Some b => f_spec fl = ref_of ev b | None => True end.
 
 Definition child_ok (p : bool) (f : spec) (c : node) : Prop :=
   match c with
   | Leaf l => acc p f (leaf_pv l)
-  | Node _ KDict _ _ fl _ => route true f = true /\ f_spec fl = ref_opt ev (bound_for true f)
-  | Node _ KList _ _ fl _ => route false f = true /\ f_spec fl = ref_opt ev (bound_for false f)
+  | Node _ KDict _ _ fl _ => route true f = true /\ carries fl (bound_for true f)
+  | Node _ KList _ _ fl _ => route false f = true /\ carries fl (bound_for false f)
   | Node _ (KObj c) _ _ _ _ => acc p f (obj_pv c)
   end.
 
@@ -108,8 +95,10 @@ Lemma child_ok_face : forall p f a b, same_face a b -> child_ok p f a -> child_o
 Proof.
   intros p f a b S H. destruct a as [x|i k pa pt fl its], b as [y|i' k' pa' pt' fl' its']; simpl in S; try contradiction.
   - simpl in *. rewrite <- S. exact H.
-  - destruct S as (-> & E). destruct k'; simpl in *; rewrite <- ?E; auto.
+  - destruct S as (-> & E). destruct k'; simpl in *; unfold carries in *; rewrite <- ?E; auto.
 Qed.
+Lemma carries_eq : forall fl o, f_spec fl = ref_opt ev o -> carries fl o.
+Proof. intros fl [b|] H; simpl in *; auto. Qed.
 
 (* --- cnode does not look at parent links, paths, the sealed / accessor flags ------------------------------------ *)
 Lemma face_set_path : forall p n, same_face n (set_path p n).
